@@ -586,6 +586,64 @@ fn gen_vsign(ctx: &mut Ctx) {
             ctx.monitor(stored == want, "C13-state-machine", &format!("VSL 3 M <configure {}x{} with block {}, one complete page of {} bytes>", w, h, hex_of_bytes(block), total), &format!("stored: {}", &stored[..stored.len().min(60)]));
         }
     }
+    // narrow custom geometries (widths 1..=12, heights 1, 7, 8, 9) with page numbers of one, two and three digits: a complete
+    // page, the dump of it at PixelsComplete, and a flip
+    for w in 1u32..=12 {
+        for h in [1u32, 7, 8, 9] {
+            for id in [0u8, 5, 9, 10, 42, 99, 100, 255] {
+                if !thorough && (w + h + id as u32) % 3 != 0 {
+                    continue;
+                }
+                let block = vec![8u8, 0, 0, 0, 0, h as u8, 0, w as u8, 0, 0, 0, 0, 0, 0, 0, 0];
+                let total = total_bytes(w as u64, h as u64) as usize;
+                let mut page: Vec<u8> = (0..total).map(|x| ((x * 7 + w as usize) & 255) as u8).collect();
+                page[0] = id;
+                let mut msgs = vec!["RO.3.RCF".to_string(), format!("SD.0.{}", hex_of_bytes(&block)), "DC.1".to_string(), "RO.3.RPX".to_string()];
+                for (k, c) in page.chunks(16).enumerate() {
+                    msgs.push(format!("SD.{}.{}", k * 16, hex_of_bytes(c)));
+                }
+                msgs.push(format!("DC.{}", (total + 15) / 16));
+                for m in ["QS.3", "PC.3", "QS.3", "RO.3.SLP", "QS.3", "QS.3"] {
+                    msgs.push(m.to_string());
+                }
+                let line = format!("VSL 3 M {}", msgs.join(" "));
+                let res = ctx.case(line.clone(), true, "narrow-geometry-page-numbers");
+                ctx.monitor(!res.contains("PANIC"), "C12-no-panic", &line, &res[..res.len().min(200)]);
+            }
+        }
+    }
+    // flip part of the way through a list of pages, then a second transfer (fewer, as many, more pages, or none), then flip
+    // again: whatever the sign remembers about where it was in the old list must not outlive the list
+    for l1 in 1usize..=4 {
+        for flips in 0usize..=4 {
+            for l2 in 0usize..=3 {
+                if !thorough && (l1 + flips + l2) % 2 == 1 {
+                    continue;
+                }
+                let mut msgs = vec!["RO.3.RCF".to_string(), format!("SD.0.{}", config_blocks()[2].0), "DC.1".to_string()];
+                for (li, l) in [l1, l2].iter().enumerate() {
+                    msgs.push("RO.3.RPX".to_string());
+                    for i in 0..*l {
+                        msgs.push(format!("SD.0.{}", hex_of_bytes(&[(10 * li + i) as u8, 0x10, 0, 0, 1, 2, 3, 4, 5, 6, 7, 8, 0xFF, 0xFF, 0xFF, 0xFF])));
+                    }
+                    msgs.push(format!("DC.{}", l));
+                    msgs.push("QS.3".to_string());
+                    msgs.push("PC.3".to_string());
+                    msgs.push("QS.3".to_string());
+                    for f in 0..(if li == 0 { flips } else { 5 }) {
+                        msgs.push(if f % 2 == 0 { "RO.3.SLP" } else { "RO.3.LNP" }.to_string());
+                        msgs.push("QS.3".to_string());
+                        msgs.push("QS.3".to_string());
+                    }
+                }
+                for style in ["M", "A"] {
+                    let line = format!("VSL 3 {} {}", style, msgs.join(" "));
+                    let res = ctx.case(line.clone(), true, "flip-then-shorter-list-then-flip");
+                    ctx.monitor(!res.contains("PANIC"), "C12-no-panic", &line, &res[..res.len().min(200)]);
+                }
+            }
+        }
+    }
     // 65 540 configuration blocks in one configuration phase, and 65 540 chunks in one pixel phase (16-bit counters)
     {
         let blk = &config_blocks()[0].0;
